@@ -768,4 +768,279 @@ theorem wake_core (c d : Cfg) (fn wf wf' : Nat) (w : WF) (h : Core c d) (hi : In
     rw [endOfStep_exception, endOfStep_exception]
     exact endOfStep_core c d _ _ h hi (Or.inr ⟨_, _, rfl, rfl, Or.inl ⟨rfl, excepted_notWaiting e⟩⟩)
 
+/-! ### the loop of one tick -/
+
+def NotCrashed (c : Cfg) : Prop := ∀ e, c.pc ≠ .crashed e
+
+/-- the stepping task would block on the pause future -/
+def Held (c : Cfg) : Prop := ∃ pf, c.paused = some pf ∧ c.pfs[pf]? = some false
+
+theorem loopHead_term (P : Prog) (m : Nat) (c : Cfg) (hn : NotCrashed c) (ht : terminal c.st.label = true) :
+    loopHead P (m + 1) c = { c with pc := .done } := by
+  unfold loopHead; split
+  · rename_i e he; exact absurd he (hn e)
+  · simp [ht]
+
+theorem loopHead_closed (P : Prog) (m : Nat) (c : Cfg) (hn : NotCrashed c) (ht : terminal c.st.label = false)
+    (hc : c.closed = true) : loopHead P (m + 1) c = { c with pc := .crashed .closedErr } := by
+  unfold loopHead; split
+  · rename_i e he; exact absurd he (hn e)
+  · simp [ht, hc]
+
+theorem loopHead_held (P : Prog) (m : Nat) (c : Cfg) (hn : NotCrashed c) (ht : terminal c.st.label = false)
+    (hc : c.closed = false) (pf : Nat) (hp : c.paused = some pf) (hf : c.pfs[pf]? = some false) :
+    loopHead P (m + 1) c = { c with pc := .awaitPaused pf } := by
+  unfold loopHead; split
+  · rename_i e he; exact absurd he (hn e)
+  · simp [ht, hc, hp, hf]
+
+theorem loopHead_go (P : Prog) (m : Nat) (c : Cfg) (hn : NotCrashed c) (ht : terminal c.st.label = false)
+    (hc : c.closed = false) (hh : ¬ Held c) : loopHead P (m + 1) c = stepBodyK P (loopHead P m) c := by
+  unfold loopHead; split
+  · rename_i e he; exact absurd he (hn e)
+  · simp only [ht, hc, Bool.false_eq_true, if_false]
+    split
+    · rename_i pf hp
+      split
+      · rename_i hf; exact absurd ⟨pf, hp, hf⟩ hh
+      · rfl
+    · rfl
+
+theorem loopDone_go (P : Prog) (m : Nat) (c : Cfg) (hn : NotCrashed c) (ht : terminal c.st.label = false)
+    (hc : c.closed = false) (hp : c.paused = none) : loopDone P (m + 1) c = stepDoneK P (loopDone P m) c := by
+  unfold loopDone; split
+  · rename_i e he; exact absurd he (hn e)
+  · simp only [ht, hc, hp, Bool.false_eq_true, if_false]
+
+/-- between two steps of the loop run by one tick (the program counters are stale there) -/
+structure Mid (c d : Cfg) : Prop where
+  core : Core c d
+  int : c.interrupt = none
+  stepping : c.stepping = false
+  ncc : NotCrashed c
+  ncd : NotCrashed d
+
+def isRunningPc : Pc → Bool
+  | .inUser _ => true
+  | .awaitWaiting _ => true
+  | _ => false
+
+/-- the stepping tasks of the two runs are suspended at the same point -/
+def PcRelAt : Pc → Cfg → Cfg → Prop
+  | .awaitWaiting wf, c, d =>
+      ∃ fn wk aw wf', c.st = .waiting fn wf wk aw ∧ d.st = .waiting fn wf' none aw ∧ d.pc = .awaitWaiting wf'
+  | .inUser b, c, d => d.pc = .inUser b ∧ ∃ fn args kw, c.st = .running fn args kw
+  | .awaitPaused _, _, _ => False
+  | p, _, d => d.pc = p
+
+/-- both runs are at the same point of the same step; a pause may have been requested (`interrupt` set) but has not
+taken effect -/
+structure InStep (c d : Cfg) : Prop where
+  core : Core c d
+  intOk : IntOk c
+  pc : PcRelAt c.pc c d
+  run : isRunningPc c.pc = true → c.stepping = true ∧ c.paused = none
+  idle : isRunningPc c.pc = false → c.stepping = false ∧ c.interrupt = none
+
+/-- the run with pauses is held at (or released from, but not yet woken after) a pause future; the reference run has
+already executed the loop from that point on -/
+def Lag (P : Prog) (c d : Cfg) : Prop :=
+  isAwaitPaused c.pc = true ∧ ∃ d0 n, n ≤ fuel0 ∧ loopDone P n d0 = true ∧ d = loopHead P n d0 ∧ Mid c d0
+
+/-- a pause was requested while both runs wait on a pending future: the run with pauses has interrupted its future and
+will re-arm the wait at the next tick -/
+structure QW (c d : Cfg) : Prop where
+  sh : sh c = sh d
+  ckill : c.killing = none
+  dint : d.interrupt = none
+  dpaused : d.paused = none
+  wait : ∃ fn wf aw wf' k, c.st = .waiting fn wf none aw ∧ d.st = .waiting fn wf' none aw ∧
+    c.wfs[wf]? = some (.interrupted k) ∧ d.wfs[wf']? = some .pending ∧ c.pc = .awaitWaiting wf ∧ d.pc = .awaitWaiting wf'
+  intOk : IntOk c
+  intSome : c.interrupt ≠ none
+  stepping : c.stepping = true
+  paused : c.paused = none
+
+def SL (P : Prog) (c d : Cfg) : Prop := InStep c d ∨ Lag P c d
+
+/-- the simulation relation between the run with pause/play requests and the reference run -/
+def Sim (P : Prog) (c d : Cfg) : Prop := InStep c d ∨ QW c d ∨ Lag P c d
+
+theorem core_pc (c d : Cfg) (p q : Pc) (h : Core c d) : Core { c with pc := p } { d with pc := q } :=
+  ⟨h.sh, h.st, h.ckill, h.dint, h.dpaused⟩
+
+theorem core_stepping (c d : Cfg) (b : Bool) (h : Core c d) : Core { c with stepping := b } { d with stepping := b } := by
+  refine ⟨?_, h.st, h.ckill, h.dint, h.dpaused⟩
+  obtain ⟨h1, h2, h3, h4, h5, h6, h7, h8, h9, h10, h11, h12, h13, h14, h15⟩ := sh_fields h.sh
+  rw [sh_eq_iff]; simp [*]
+
+theorem live_of_label {s : SObj} : (∃ fn, s = .created fn) ∨ (∃ fn a k, s = .running fn a k) ∨
+    (∃ fn wf wk aw, s = .waiting fn wf wk aw) → terminal s.label = false := by
+  rintro (⟨fn, rfl⟩ | ⟨fn, a, k, rfl⟩ | ⟨fn, wf, wk, aw, rfl⟩) <;> simp [SObj.label, terminal, allowed]
+
+/-! reduction of the step body by the kind of state -/
+theorem stepBodyK_created (P : Prog) (k : Cfg → Cfg) (c : Cfg) (fn : Nat) (h : c.st = .created fn) :
+    stepBodyK P k c = k (endOfStep { c with stepping := true } (.next (some (.running fn [] [])))) := by
+  unfold stepBodyK; dsimp only; rw [h]
+theorem stepDoneK_created (P : Prog) (k : Cfg → Bool) (c : Cfg) (fn : Nat) (h : c.st = .created fn) :
+    stepDoneK P k c = k (endOfStep { c with stepping := true } (.next (some (.running fn [] [])))) := by
+  unfold stepDoneK; dsimp only; rw [h]
+
+theorem stepBodyK_running (P : Prog) (k : Cfg → Cfg) (c : Cfg) (fn : Nat) (args : List Val) (kw : List (Nat × Val))
+    (h : c.st = .running fn args kw) :
+    stepBodyK P k c =
+      if (P fn args kw c.ctx).awaits = 0 then
+        k (finishUser { c with stepping := true,
+                               trace := { fn := fn, args := args, kw := kw, paused := c.paused.isSome } :: c.trace }
+             (P fn args kw c.ctx).out)
+      else { c with stepping := true,
+                    trace := { fn := fn, args := args, kw := kw, paused := c.paused.isSome } :: c.trace,
+                    pc := .inUser { P fn args kw c.ctx with awaits := (P fn args kw c.ctx).awaits - 1 } } := by
+  unfold stepBodyK; dsimp only; rw [h]
+theorem stepDoneK_running (P : Prog) (k : Cfg → Bool) (c : Cfg) (fn : Nat) (args : List Val) (kw : List (Nat × Val))
+    (h : c.st = .running fn args kw) :
+    stepDoneK P k c =
+      if (P fn args kw c.ctx).awaits = 0 then
+        k (finishUser { c with stepping := true,
+                               trace := { fn := fn, args := args, kw := kw, paused := c.paused.isSome } :: c.trace }
+             (P fn args kw c.ctx).out)
+      else true := by
+  unfold stepDoneK; dsimp only; rw [h]
+
+theorem stepBodyK_waiting_pending (P : Prog) (k : Cfg → Cfg) (c : Cfg) (fn wf : Nat) (wk aw)
+    (h : c.st = .waiting fn wf wk aw) (hw : c.wfs[wf]? = some .pending) :
+    stepBodyK P k c = { c with stepping := true, pc := .awaitWaiting wf } := by
+  unfold stepBodyK; dsimp only; rw [h]; dsimp only; rw [hw]
+theorem stepBodyK_waiting_done (P : Prog) (k : Cfg → Cfg) (c : Cfg) (fn wf : Nat) (wk aw) (w : WF)
+    (h : c.st = .waiting fn wf wk aw) (hw : c.wfs[wf]? = some w) (hp : w ≠ .pending) :
+    stepBodyK P k c = k (wake { c with stepping := true } fn wf w) := by
+  unfold stepBodyK; dsimp only; rw [h]; dsimp only; rw [hw]
+  cases w <;> first | rfl | exact absurd rfl hp
+theorem stepDoneK_waiting_done (P : Prog) (k : Cfg → Bool) (c : Cfg) (fn wf : Nat) (wk aw) (w : WF)
+    (h : c.st = .waiting fn wf wk aw) (hw : c.wfs[wf]? = some w) (hp : w ≠ .pending) :
+    stepDoneK P k c = k (wake { c with stepping := true } fn wf w) := by
+  unfold stepDoneK; dsimp only; rw [h]; dsimp only; rw [hw]
+  cases w <;> first | rfl | exact absurd rfl hp
+
+theorem invP_traced (c : Cfg) (h : InvP c) (hp : c.paused = none) (fn : Nat) (args : List Val) (kw : List (Nat × Val)) :
+    InvP { c with stepping := true, trace := { fn := fn, args := args, kw := kw, paused := c.paused.isSome } :: c.trace } := by
+  refine ⟨?_, h.pausedPending⟩
+  intro a ha
+  simp at ha
+  rcases ha with rfl | ha
+  · simp [hp]
+  · exact h.traceOk a ha
+
+theorem stepBodyK_sim (P : Prog) (k kd : Cfg → Cfg) (kD : Cfg → Bool)
+    (hk : ∀ e e', Mid e e' → InvP e → kD e' = true → SL P (k e) (kd e'))
+    (c d : Cfg) (hm : Mid c d) (hp : c.paused = none) (hinv : InvP c)
+    (hl : terminal c.st.label = false) (hD : stepDoneK P kD d = true) : SL P (stepBodyK P k c) (stepBodyK P kd d) := by
+  have hc1 : Core { c with stepping := true } { d with stepping := true } := core_stepping c d true hm.core
+  have hi1 : IntOk { c with stepping := true } := IntOk.of_none hm.int
+  have hs1 : InvP { c with stepping := true } := hinv.same ⟨rfl, rfl, rfl, rfl⟩
+  have cont : ∀ c1 d1 e e', EndRel c1 d1 e e' → c1.pc = c.pc → d1.pc = d.pc → InvP e → kD e' = true → SL P (k e) (kd e') := by
+    intro c1 d1 e e' he hpc hpd hie hde
+    exact hk e e' ⟨he.core, he.int, he.stepping, by intro x hx; rw [he.pcc, hpc] at hx; exact hm.ncc x hx,
+      by intro x hx; rw [he.pcd, hpd] at hx; exact hm.ncd x hx⟩ hie hde
+  have hsh := sh_fields hm.core.sh
+  rcases hm.core.st with ⟨heq, hnw⟩ | ⟨fn, wf, aw, wf', w, h1, h2, h3, h4, h5⟩
+  · cases hst : c.st with
+    | created fn =>
+      have hst' : d.st = .created fn := by rw [← heq]; exact hst
+      rw [stepBodyK_created P k c fn hst, stepBodyK_created P kd d fn hst']
+      rw [stepDoneK_created P kD d fn hst'] at hD
+      exact cont _ _ _ _
+        (endOfStep_core _ _ _ _ hc1 hi1 (Or.inr ⟨_, _, rfl, rfl, Or.inl ⟨rfl, by intro a b c d h; cases h⟩⟩)) rfl rfl
+        (endOfStep_invP _ _ hs1) hD
+    | running fn args kw =>
+      have hst' : d.st = .running fn args kw := by rw [← heq]; exact hst
+      rw [stepBodyK_running P k c fn args kw hst, stepBodyK_running P kd d fn args kw hst']
+      rw [stepDoneK_running P kD d fn args kw hst'] at hD
+      have hctx : c.ctx = d.ctx := hsh.2.2.2.2.2.2.2.2.1
+      have hpz : c.paused.isSome = d.paused.isSome := by rw [hp, hm.core.dpaused]
+      have htr : c.trace = d.trace := hsh.2.2.2.2.2.2.2.2.2.2.2.1
+      have hb : P fn args kw d.ctx = P fn args kw c.ctx := by rw [hctx]
+      rw [hb, ← hpz, ← htr] at hD ⊢
+      have hc2 : Core { c with stepping := true, trace := { fn := fn, args := args, kw := kw, paused := c.paused.isSome } :: c.trace }
+          { d with stepping := true, trace := { fn := fn, args := args, kw := kw, paused := c.paused.isSome } :: c.trace } := by
+        refine ⟨?_, hm.core.st, hm.core.ckill, hm.core.dint, hm.core.dpaused⟩
+        obtain ⟨g1, g2, g3, g4, g5, g6, g7, g8, g9, g10, g11, g12, g13, g14, g15⟩ := hsh
+        rw [sh_eq_iff]; simp [*]
+      have hs2 := invP_traced c hinv hp fn args kw
+      by_cases ha : (P fn args kw c.ctx).awaits = 0
+      · simp only [ha, if_true] at hD ⊢
+        exact cont _ _ _ _ (finishUser_core _ _ _ hc2 (IntOk.of_none hm.int)) rfl rfl (finishUser_invP _ _ hs2) hD
+      · simp only [ha, if_false]
+        left
+        exact ⟨core_pc _ _ _ _ hc2, IntOk.of_none hm.int, ⟨rfl, fn, args, kw, hst⟩, fun _ => ⟨rfl, hp⟩,
+          fun h => by simp [isRunningPc] at h⟩
+    | waiting fn wf wk aw => exact absurd hst (hnw _ _ _ _)
+    | finished v ok => rw [hst] at hl; simp [SObj.label, terminal, allowed] at hl
+    | excepted e => rw [hst] at hl; simp [SObj.label, terminal, allowed] at hl
+    | killed => rw [hst] at hl; simp [SObj.label, terminal, allowed] at hl
+  · by_cases hw : w = .pending
+    · subst hw
+      rw [stepBodyK_waiting_pending P k c fn wf none aw h1 h3, stepBodyK_waiting_pending P kd d fn wf' none aw h2 h4]
+      left
+      exact ⟨core_pc _ _ _ _ hc1, IntOk.of_none hm.int, ⟨fn, none, aw, wf', h1, h2, rfl⟩, fun _ => ⟨rfl, hp⟩,
+        fun h => by simp [isRunningPc] at h⟩
+    · rw [stepBodyK_waiting_done P k c fn wf none aw w h1 h3 hw, stepBodyK_waiting_done P kd d fn wf' none aw w h2 h4 hw]
+      rw [stepDoneK_waiting_done P kD d fn wf' none aw w h2 h4 hw] at hD
+      exact cont _ _ _ _ (wake_core _ _ fn wf wf' w hc1 hi1 h5 hw) rfl rfl (wake_invP _ _ _ _ hs1) hD
+
+theorem not_held_of_none {d : Cfg} (h : d.paused = none) : ¬ Held d := by
+  rintro ⟨pf, hp, _⟩; rw [h] at hp; cases hp
+
+theorem inStep_idle (c d : Cfg) (p : Pc) (hm : Mid c d) (hp : isRunningPc p = false) (hap : isAwaitPaused p = false) :
+    InStep { c with pc := p } { d with pc := p } := by
+  refine ⟨core_pc _ _ _ _ hm.core, IntOk.of_none hm.int, ?_, ?_, fun _ => ⟨hm.stepping, hm.int⟩⟩
+  · show PcRelAt p _ _
+    cases p with
+    | notStarted => rfl
+    | done => rfl
+    | crashed e => rfl
+    | inUser b => simp [isRunningPc] at hp
+    | awaitWaiting wf => simp [isRunningPc] at hp
+    | awaitPaused pf => simp [isAwaitPaused] at hap
+  · intro h
+    have : isRunningPc p = true := h
+    rw [hp] at this; cases this
+
+/-- the loop of one tick, run by both runs from related configurations, with enough fuel on the reference side -/
+theorem loopHead_sim (P : Prog) : ∀ (n m : Nat) (c d : Cfg), n ≤ m → n ≤ fuel0 → Mid c d → InvP c →
+    loopDone P n d = true → SL P (loopHead P m c) (loopHead P n d) := by
+  intro n
+  induction n with
+  | zero => intro m c d _ _ _ _ hD; simp [loopDone] at hD
+  | succ n ih =>
+    intro m c d hnm hnf hm hinv hD
+    obtain ⟨m', rfl⟩ : ∃ m', m = m' + 1 := ⟨m - 1, by omega⟩
+    have hlab := hm.core.label
+    have hcl : c.closed = d.closed := (sh_fields hm.core.sh).2.2.2.1
+    by_cases ht : terminal c.st.label = true
+    · rw [loopHead_term P m' c hm.ncc ht, loopHead_term P n d hm.ncd (hlab ▸ ht)]
+      exact Or.inl (inStep_idle c d .done hm rfl rfl)
+    · have htf : terminal c.st.label = false := by simpa using ht
+      have htd : terminal d.st.label = false := hlab ▸ htf
+      by_cases hc : c.closed = true
+      · rw [loopHead_closed P m' c hm.ncc htf hc, loopHead_closed P n d hm.ncd htd (hcl ▸ hc)]
+        exact Or.inl (inStep_idle c d (.crashed .closedErr) hm rfl rfl)
+      · have hcf : c.closed = false := by simpa using hc
+        by_cases hh : Held c
+        · obtain ⟨pf, hp, hf⟩ := hh
+          rw [loopHead_held P m' c hm.ncc htf hcf pf hp hf]
+          right
+          refine ⟨rfl, d, n + 1, hnf, hD, rfl, ⟨⟨hm.core.sh, hm.core.st, hm.core.ckill, hm.core.dint, hm.core.dpaused⟩,
+            hm.int, hm.stepping, ?_, hm.ncd⟩⟩
+          intro e he; cases he
+        · have hp : c.paused = none := by
+            cases hpa : c.paused with
+            | none => rfl
+            | some pf => exact absurd ⟨pf, hpa, hinv.pausedPending htf pf hpa⟩ hh
+          rw [loopHead_go P m' c hm.ncc htf hcf hh,
+            loopHead_go P n d hm.ncd htd (hcl ▸ hcf) (not_held_of_none hm.core.dpaused)]
+          rw [loopDone_go P n d hm.ncd htd (hcl ▸ hcf) hm.core.dpaused] at hD
+          exact stepBodyK_sim P _ _ _ (fun e e' hme hie hde => ih m' e e' (by omega) (by omega) hme hie hde)
+            c d hm hp hinv htf hD
+
 end PMF
